@@ -230,12 +230,27 @@ def run_isolated(func, *args):
             os._exit(status)  # pylint: disable=W0212
     os.close(write_fd)
     chunks = []
-    with os.fdopen(read_fd, "rb") as inp:
+    import select  # pylint: disable=C0415
+    import signal  # pylint: disable=C0415
+    import time  # pylint: disable=C0415
+
+    deadline = time.monotonic() + float(os.environ.get("VERIF_RUN_CAP_S", "900"))
+    try:
         while True:
-            block = inp.read(1 << 20)
-            if not block:
-                break
-            chunks.append(block)
+            left = deadline - time.monotonic()
+            ready, _, _ = select.select([read_fd], [], [], max(0.0, min(left, 5.0)))
+            if ready:
+                block = os.read(read_fd, 1 << 20)
+                if not block:
+                    break
+                chunks.append(block)
+            elif left <= 0:
+                # a hung run must not survive its parent: kill it and report a harness timeout
+                os.kill(pid, signal.SIGKILL)
+                os.waitpid(pid, 0)
+                raise HarnessError("HARNESS_TIMEOUT: isolated run exceeded its wall cap and was killed")
+    finally:
+        os.close(read_fd)
     _, code = os.waitpid(pid, 0)
     if code != 0 or not chunks:
         raise HarnessError(f"isolated world died (status {code})")
